@@ -12,12 +12,12 @@ import (
 )
 
 type c45Plan struct {
-	Cert     string   `json:"cert"`
-	Key      string   `json:"key"`
-	Targets  []string `json:"targets"`
-	NewApex  string   `json:"new_apex"`
-	NewTgts  []string `json:"new_targets"`
-	Saves    int      `json:"saves"`
+	Cert    string   `json:"cert"`
+	Key     string   `json:"key"`
+	Targets []string `json:"targets"`
+	NewApex string   `json:"new_apex"`
+	NewTgts []string `json:"new_targets"`
+	Saves   int      `json:"saves"`
 }
 
 func pick[T any](r *simrt.Rand, xs ...T) T { return xs[r.Intn(len(xs))] }
@@ -155,6 +155,8 @@ func Run(t *testing.T, prop string, seed uint64, tier string, replay *hcommon.Re
 	switch prop {
 	case "C45":
 		return runC45(t, prop, seed, tier, replay)
+	case "C44":
+		return runC44(t, prop, seed, tier, replay)
 	}
 	return hcommon.RunResult{Prop: prop, Seed: seed, Abort: "unknown property"}
 }
